@@ -131,6 +131,22 @@ func churnString(c *churn, s string, n int) int {
 	return len(s) + n
 }
 
+// Two instantiations of one generic function, parked on the same line and started from the same line:
+// the runtime prints both as churnGeneric[...], with argument lists of different shape
+// ({p,l,c},{p,l} and {p,l},{p,l,c}), in goroutines that are otherwise indistinguishable.
+//
+//go:noinline
+func churnGeneric[A, B any](c *churn, a A, b B) (A, B) {
+	c.ready.Done()
+	<-c.nilCh
+	return a, b
+}
+
+//go:noinline
+func spawnGeneric[A, B any](c *churn, a A, b B) {
+	go churnGeneric(c, a, b)
+}
+
 //go:noinline
 func startChurn() *churn {
 	c := &churn{stop: make(chan struct{}), recvCh: make(chan int), sendCh: make(chan int), selCh: make(chan int)}
@@ -169,6 +185,9 @@ func startChurn() *churn {
 	add(regEntry{fn: "churnLocked", state: "chan receive", locked: true, creator: creator}, func() { churnLocked(c) })
 	add(regEntry{fn: "churnDeep", state: "chan receive", elided: true, creator: creator}, func() { churnDeep(c, 130) })
 	add(regEntry{fn: "churnString", state: "chan receive", creator: creator}, func() { churnString(c, "hello, churn", 7) })
+	c.ready.Add(2)
+	spawnGeneric(c, []int{1, 2, 3}, "generic")
+	spawnGeneric(c, "generic", []int{1, 2, 3})
 	// a one-line function on the very last line of a file that does not end in a newline (churn_lastline.go)
 	add(regEntry{fn: "churnLastLine", state: "chan receive (nil chan)", creator: creator}, func() { churnLastLine(c, 7) })
 	c.ready.Wait()
